@@ -245,12 +245,7 @@ Proof.
 Qed.
 
 (** ** the initialisation before the loop that builds the reduced dendrogram *)
-Lemma dset_fresh_raw k v (acc : list (Z * val)) : ~ In k (map fst acc) -> dset k v acc = (acc ++ [(k, v)])%list.
-Proof.
-  induction acc as [|[k' v'] t IH]; intros H; [reflexivity|]. cbn [dset].
-  destruct (Z.eqb_spec k k') as [E|E]; [exfalso; apply H; left; symmetry; exact E|].
-  cbn [app]. f_equal. apply IH. intros Hin. apply H. right. exact Hin.
-Qed.
+
 
 Lemma dict_enum_fresh (f : nat -> val -> pres (Z * val)) (g : val -> val) : forall items p acc,
   (forall pos item, In item items -> f pos item = POk (Z.of_nat pos, g item)) ->
